@@ -8,8 +8,8 @@ package main
 // transcribed from the format description.
 
 import (
-	"regexp"
 	"fmt"
+	"regexp"
 	"sort"
 	"strings"
 
@@ -528,7 +528,18 @@ func rejectsOnly(fa *FuncAn, from, avoid *ssa.BasicBlock) bool {
 			}
 			if !errCtorRe.MatchString(fa.R.R(last)) {
 				if _, isMI := last.(*ssa.MakeInterface); !isMI {
-					return false
+					// `if err != nil { return err }`: non-nil by the test that leads here
+					nonNil := false
+					if len(b.Preds) == 1 {
+						for k, sx := range b.Preds[0].Succs {
+							if sx == b && fa.knownNonNilErr(last, &Edge{b.Preds[0], k}) {
+								nonNil = true
+							}
+						}
+					}
+					if !nonNil {
+						return false
+					}
 				}
 			}
 			rets++
